@@ -66,6 +66,11 @@ AbsAddItem(val, k, v) ==
 RcExp(v, p) == (v % 2 = 1) /\ p # 1
 OcExp(v, p) == p # 2
 
+(* The block's earliest time is part of what a block is (it goes into the serialisation).  Which instant it is when some  *)
+(* items carry no time is the implementation's choice (C17 only asks that it is not later than any stored time), so the  *)
+(* trace specification compares it with the earliest time of a FRESHLY BUILT block that was given the same items in the  *)
+(* same order (driver field fe) - the statement of C19 itself - and not with a formula.                                  *)
+
 (* what add_*() returns: the block is full under ITS parameters *)
 AbsFull(val) == Len(val.q) >= MaxItems(val.p) \/ Len(val.a) >= MaxItems(val.p) \/ Len(val.m) >= MaxItems(val.p)
 
